@@ -192,9 +192,11 @@ def _star_big(out, pid, seed, thorough):
     """Binding B at large scope: random scenarios (thresholds up to 64 / 200) validated by Trace_Star."""
     wd = workdir(pid + "-big")
     tr = os.path.join(wd, "star.ndjson")
-    n = 24 if thorough else 8
-    cmd = ["star-record", "--out", tr, "--seed", seed, "--scenarios", n, "--maxt", 200 if thorough else 64,
-           "--prop", pid, "--selections", 60 if thorough else 40]
+    # every threshold 1..40 (quick 1..20) in turn, then sampled large ones (up to 64 / 200, and 257+ thorough)
+    sweep = 40 if thorough else 20
+    n = sweep + (24 if thorough else 6)
+    cmd = ["star-record", "--out", tr, "--seed", seed, "--scenarios", n, "--maxt", 260 if thorough else 64,
+           "--prop", pid, "--selections", 40 if thorough else 16, "--sweep", sweep]
     out.add_vh(run_vh(cmd, timeout=3000), only={pid})
     _trace_check(out, pid, "Trace_Star", "Trace_Star.cfg", tr, cmd, n, "STAR recovery scenario")
 
@@ -370,9 +372,12 @@ def c06(tier, seed):
     _shamir_small(out, ["Shamir_q5_t1.cfg", "Shamir_q5_t2.cfg", "Shamir_q5_t3.cfg", "Shamir_q7_t1.cfg"] +
                   (["Shamir_q7_t2.cfg", "Shamir_q7_t3.cfg", "Shamir_q13_t2.cfg"] if thorough else []))
     _sharded_trace(out, "C06", "Trace_Shamir", "Trace_Shamir.cfg",
-                   lambda k, tr: ["shamir-record", "--out", tr, "--seed", seed + k, "--deals", 16 if thorough else 10,
-                                  "--maxt", 96 if (thorough and k == 0) else (40 if thorough else 24), "--big", 1 if k == 0 else 0],
-                   8 if thorough else 2, "Shamir dealing/recovery log")
+                   lambda k, tr: (["shamir-record", "--out", tr, "--seed", seed + k, "--deals", (41 if thorough else 21),
+                                   "--maxt", 40 if thorough else 20, "--sweep", 40 if thorough else 20, "--big", 1]
+                                  if k == 0 else
+                                  ["shamir-record", "--out", tr, "--seed", seed + k, "--deals", 16 if thorough else 10,
+                                   "--maxt", 96 if (thorough and k == 1) else (40 if thorough else 24), "--big", 0]),
+                   8 if thorough else 3, "Shamir dealing/recovery log")
     return out
 
 
